@@ -296,6 +296,13 @@ def _gen_ops(rng, cfg, nrx):
                 ["reset"], ["add", perm_r()], ["fit", None, 0.25], ["fit", None, 0.25]]
     else:
         ops += [["add", perm_r()], ["fit", x, smin], ["fit", x, smin], ["lik"]]
+    if rng.random() < 0.5:
+        # hyper-parameters of one kernel changed on the live object (DFTKernel.set_kernel), covariances re-stored, reactions
+        # re-registered, refit: everything the fit uses must follow the new kernel (added after a seeded change that
+        # memoised K_mm across set_kernel went unnoticed)
+        ops += [["setk", int(rng.integers(len(cfg["kernels"])))]]
+        ops += [["store", c, {"get_correlation": True}] for c in chunks]
+        ops += [["reset"], ["add", perm_r()], ["fit", None, 0.25], ["lik"]]
     ops.append(["fresh"])  # fresh model: systems and reactions shuffled, compared with the last fit
     return ops
 
@@ -648,6 +655,27 @@ class _Model:
         self.Kmm = [_kmm(s, c) for s, c in zip(specs, self.ctrl)]
         self.M = [K.shape[0] for K in self.Kmm]
         self.condmm = [float(np.linalg.cond(K + JITTER * np.eye(K.shape[0]))) for K in self.Kmm]
+
+    # -- DFTKernel.set_kernel -------------------------------------------------------------------------
+    def setk(self, ik, rng):
+        from copy import deepcopy as clone
+        spec = self.specs[ik]
+        th = np.array(spec["kern"].theta, dtype=float)
+        if th.size == 0:
+            return False
+        with _quiet():
+            new = spec["kern"].clone_with_theta(th + rng.normal(scale=0.35, size=th.size))
+        self.specs = list(self.specs)
+        self.specs[ik] = dict(spec, kern=new)
+        self.kernels[ik].set_kernel(clone(new))
+        self.Kmm[ik] = _kmm(self.specs[ik], self.ctrl[ik])
+        self.condmm[ik] = float(np.linalg.cond(self.Kmm[ik] + JITTER * np.eye(self.M[ik])))
+        for key in [k for k in self.direct if k[0] == ik]:
+            del self.direct[key]
+        self.stored[ik] = set()
+        self.fits = []      # fits with the previous kernel are not comparable
+        self.rec.tag("set_kernel", "theta-shift[%s]" % spec["mode"])
+        return True
 
     # -- store_mol_covs -------------------------------------------------------------------------------
     def store(self, mols, opts):
@@ -1100,6 +1128,8 @@ def _run(case, rec, tmp):
             elif name == "add":
                 A.add(op[1], rxns)
                 history.append(["add", op[1]])
+            elif name == "setk":
+                history.append(["setk", op[1], A.setk(op[1], rng)])
             elif name == "reset":
                 A.reset()
                 history.append(["reset"])
@@ -1114,7 +1144,7 @@ def _run(case, rec, tmp):
                 history.append(["fresh"])
         except Exception as e:  # noqa: BLE001
             _unreached(rec, cfg, {"store": "store_mol_covs", "add": "add_reactions", "reset": "reset_reactions",
-                                  "fit": "fit", "lik": "compute_likelihood", "fresh": "fresh-model"}[name], e)
+                                  "fit": "fit", "lik": "compute_likelihood", "fresh": "fresh-model", "setk": "set_kernel"}[name], e)
             break
     last = A.last
     rec.set_sample({"cfg": {k: v for k, v in cfg.items() if k != "kernels"},
